@@ -99,7 +99,7 @@ def r1b_integer_arm(ctx):
         A = _analysis(ctx, q, W)
         arms = [lf for lf in A.leaves if lf.kind == "return" and any(isinstance(n, Round) for n in walk_value(lf.value))]
         if not arms:
-            ctx.error(f"{q}: no arm prints a rounded value (integer-rounding arm not found)", A.fn)
+            ctx.ok(f"{q}: no arm prints a separately rounded value (nothing to guard)", A.fn, nontrivial=False)
             continue
         for lf in arms:
             cases = A.cases[id(lf)]
@@ -112,13 +112,12 @@ def r1b_integer_arm(ctx):
                 for f in fm or [None]:
                     if f is None or f.width != W or f.corrupt:
                         bad.append({"values": _regtxt(reg), "columns": getattr(f, "width", None), "problem": f.corrupt if f else "not modelled"})
-            ok = bool(cases) and not bad
+            ok = not bad
             ctx.check(ok, f"{q}: arm `{describe(lf.value)}` on {lf.iv}: the rounded value has exactly {W} columns for every decade and rounding "
                           f"case that reaches it (values that round to a wider integer are sent to the scientific formatter first)", lf.node,
-                      None if ok else (bad[:3] or "arm unreachable"),
-                      key=f"C12-R1b|{q}|negative integer arm unguarded" if neg else None)
+                      None if ok else bad[:3], key=f"C12-R1b|{q}|negative integer arm unguarded" if neg else None, nontrivial=bool(cases))
             gen = [(reg, im) for reg, fm, im in cases if reg.carry_upto < 0]
-            ok = bool(gen) and all(m.width == W and not m.lossy for reg, im in gen for m in (im or []))
+            ok = all(m.width == W and not m.lossy for reg, im in gen for m in (im or []))
             ctx.check(ok, f"{q}: arm `{describe(lf.value)}`: integer digits plus the point use all {W} columns", lf.node, nontrivial=False)
 
 
@@ -177,6 +176,10 @@ def r2_scientific(ctx):
                 for lf in rets:
                     if lf.value not in [d.value for d in distinct]:
                         distinct.append(lf)
+                crash = [lf for lf in run.leaves if lf.kind == "raise" and isinstance(lf.value, Lit) and not lf.state.facts]
+                if crash and not rets:
+                    ctx.fail(f"{tag}: a field is returned", crash[0].node, f"every value of this sign and magnitude raises {crash[0].value.s}")
+                    continue
                 if not rets or (len(distinct) > 1 and not expzero):
                     ctx.error(f"{tag}: one rendering per sign and exponent length", fn, [describe(lf.value) for lf in rets][:4])
                     continue
